@@ -199,6 +199,7 @@ func (k *conn) send(pk packets.Packet, enc func(*packets.Packet, *bytes.Buffer) 
 	if err := enc(&pk, buf); err != nil {
 		return err
 	}
+	_ = k.c.SetWriteDeadline(time.Now().Add(5 * time.Second))
 	_, err := k.c.Write(buf.Bytes())
 	return err
 }
